@@ -772,6 +772,10 @@ static BUILD_COUNTER: std::sync::atomic::AtomicU64 = std::sync::atomic::AtomicU6
 /// Run `parol::build::Builder` exactly as a build script would (explicit output directory),
 /// returning the generated parser, trait/AST source and expanded grammar.
 pub fn builder_generate(par: &str, k: usize, cfg: &GenCfg) -> Result<Built, String> {
+    builder_generate_named(par, k, cfg, "Gram", "gram")
+}
+
+pub fn builder_generate_named(par: &str, k: usize, cfg: &GenCfg, user_type: &str, module: &str) -> Result<Built, String> {
     let n = BUILD_COUNTER.fetch_add(1, std::sync::atomic::Ordering::Relaxed);
     let dir = crate::common::verif_root().join(".build").join("tmp").join(format!("b{}-{}", std::process::id(), n));
     std::fs::create_dir_all(&dir).map_err(|e| e.to_string())?;
@@ -782,8 +786,8 @@ pub fn builder_generate(par: &str, k: usize, cfg: &GenCfg) -> Result<Built, Stri
         .parser_output_file("parser.rs")
         .actions_output_file("grammar_trait.rs")
         .expanded_grammar_output_file("g-exp.par")
-        .user_type_name("Gram")
-        .user_trait_module_name("gram")
+        .user_type_name(user_type)
+        .user_trait_module_name(module)
         .set_cargo_integration(false);
     let b = b.max_lookahead(k).map_err(|e| format!("{e}"))?;
     if cfg.min_boxed {
